@@ -28,6 +28,7 @@ CONSTANTS NV,            \* development versions are 1..NV (in cascade order)
           Admin,         \* TRUE: the administrative jobs create_branch / delete_branch are available
           AlwaysW,       \* setting always_create_integration_branches
           AlwaysPRs,     \* setting always_create_integration_pull_requests
+          TrackRep,      \* TRUE: count consecutive identical evaluations (for C10_Converge; enlarges the state space)
           Cmds,          \* commands a user may write in a comment: subset of {"reset", "force_reset"}
           Rewrites,      \* TRUE: users may restart (force-push) a source branch and commit on integration branches
           NP,            \* number of user pull requests
@@ -81,9 +82,10 @@ VARIABLES G,      \* commits: [n, anc : 1..n -> SUBSET 1..n, par : 1..n -> SUBSE
           lastmsg,\* code of the robot's last message on each PR (messages equal to it are not posted again);
                   \* it only decides whether a comment operation exists, never a ref: hidden by VIEW
           last,   \* label of the last step (for replay; hidden by VIEW)
+          rep,    \* [key, n]: the last n jobs (n capped at 4) were the same evaluation, nothing else happened between
           out     \* JSON projection of the state (only when EmitJson; hidden by VIEW)
-vars == <<G, refs, pr, child, bs, greeted, job, cmd, lastmsg, last, out>>
-View == <<G, refs, pr, child, bs, greeted, job, cmd>>
+vars == <<G, refs, pr, child, bs, greeted, job, cmd, lastmsg, last, rep, out>>
+View == IF TrackRep THEN <<G, refs, pr, child, bs, greeted, job, cmd, lastmsg, rep>> ELSE <<G, refs, pr, child, bs, greeted, job, cmd>>
 
 
 RECURSIVE CascFrom(_)
@@ -801,8 +803,15 @@ Proj(g, r, prs, ch, b, l, lm) ==
    kids |-> ch,
    bs   |-> {[c |-> c, s |-> b[c]] : c \in DOMAIN b},
    n    |-> g.n]
-NextJ == Next /\ out' = IF EmitJson THEN ToJson(Proj(G', refs', pr', child', bs', last', lastmsg')) ELSE ""
-Spec == Init /\ out = "" /\ [][NextJ]_vars
+NoRep == [key |-> <<>>, n |-> 0]
+NextJ == /\ Next
+         /\ out' = IF EmitJson THEN ToJson(Proj(G', refs', pr', child', bs', last', lastmsg')) ELSE ""
+         /\ rep' = IF ~ TrackRep THEN NoRep
+                   ELSE IF last'[1] = "job"
+                        THEN (IF rep.key = <<last'[2], last'[3]>> THEN [rep EXCEPT !.n = IF @ >= 4 THEN 4 ELSE @ + 1]
+                              ELSE [key |-> <<last'[2], last'[3]>>, n |-> 1])
+                        ELSE NoRep
+Spec == Init /\ out = "" /\ rep = NoRep /\ [][NextJ]_vars
 
 Bound == G.n <= MaxC /\ TLCGet("level") <= MaxLevel
 
@@ -888,6 +897,10 @@ C20_DestDel == [][\A b \in Branches : (BN(b) \in DOMAIN refs /\ BN(b) \notin DOM
                     /\ JobKindNow = "DeleteBranch"
                     /\ ~ \E p \in 1..NP : QWN(p, b) \in DOMAIN refs
                     /\ TagN(b) \in DOMAIN refs' /\ refs'[TagN(b)] = refs[BN(b)]]_vars
+\* C10 at design level (atomic jobs): when the same evaluation is delivered again and again with nothing else
+\* happening, after the first delivery at most two more do something: the fourth and later deliveries change nothing (no ref moves, no pull request, no comment)
+C10_Converge == [][(TrackRep /\ Atomic /\ last'[1] = "job" /\ rep'.n >= 4) =>
+                     (refs' = refs /\ child' = child /\ lastmsg' = lastmsg /\ greeted' = greeted /\ pr' = pr)]_vars
 C19_Children == \A x \in child : (IsLive(x[2]) /\ IsLive(pr[x[1]].dst)) => pr[x[1]].st # "none" /\ \E j \in 2..Len(Targets(pr[x[1]].dst)) : Targets(pr[x[1]].dst)[j] = x[2]
 TypeOK == G.n >= NBase
 =============================================================================
